@@ -68,7 +68,9 @@ def oracleC01Rounds (c : J) : Option (Option String) :=
     orElse (check ((quietFrom rs).isSome && quietAt rs (n - 1) && quietAt rs (n - 2))
       s!"no quiescence within {n} syncs: child writes per round {rs.map (·.childWrites)}, outcomes {rs.map (·.outcome)}") fun _ =>
     -- once nothing changes, nothing changes again (no hot loop)
-    orElse (firstSome (List.range n) (fun k => check (!(quietAt rs k) || k + 1 ≥ n || quietAt rs (k + 1))
+    -- (a round before which somebody else changed the parent or a child may of course write again)
+    let disturbed : List Nat := (c.getArr "disturbed").map (fun x => (x.int?.getD 0).toNat)
+    orElse (firstSome (List.range n) (fun k => check (!(quietAt rs k) || k + 1 ≥ n || disturbed.contains (k + 1) || quietAt rs (k + 1))
       s!"round {k} was quiet but round {k+1} wrote again")) fun _ =>
     if c.getBool "parentDeleting" || c.getStr "lastHook" == "" then none else
     let owned := (c.getD "owned").strList
